@@ -269,6 +269,15 @@ def run_property(prop, tier='quick', repo=None, write=True, out=sys.stdout, prog
         if prog is None:
             prog = Program(repo)
         ctx = Ctx(prop, prog, tier)
+        if getattr(prog, 'renamed', None):
+            # what sa/alpha.py normalised towards the confirmed reference before the rules ran (spelling only)
+            rn = sum(1 for w in prog.renamed.values() if 'renamed' in w)
+            il = sum(1 for w in prog.renamed.values() if 'inlined' in w)
+            rs = sum(1 for w in prog.renamed.values() if 'respelled' in w)
+            ctx.note('read through the reference spelling: %d function(s) differ from reference/functions.json in spelling only '
+                     '(locals renamed in %d, new temporaries inlined in %d, equivalent statements respelled in %d): %s'
+                     % (len(prog.renamed), rn, il, rs, ', '.join(sorted(prog.renamed)[:8])))
+            ctx.analysed['functions_normalised'] = len(prog.renamed)
         _guard_rule_functions()
         mod.run(ctx)
         from . import refdiff
